@@ -1,0 +1,15 @@
+//go:build verif
+// +build verif
+
+package trie
+
+// VerifHook, when set, is called at the verification points of the read and
+// load paths. It exists only in builds with the "verif" tag and is used by the
+// model-based verification harness as a scheduler gate and visit log.
+var VerifHook func(site string, a, b int32)
+
+func verifPoint(site string, a, b int32) {
+	if h := VerifHook; h != nil {
+		h(site, a, b)
+	}
+}
